@@ -83,6 +83,34 @@ func runC12(w *World, r *Report) {
 			if hasRoot && hasKind {
 				okJoin = true
 			}
+			// segment order: root, kind, then the identifiers in the order of the parameters (task before collection)
+			if segs := variadicArgs(c.Call.Args[0]); len(segs) >= 2 {
+				okOrder := segs[0] == ssa.Value(f.Params[0])
+				if _, isS := constString(segs[1]); !isS {
+					okOrder = false
+				}
+				for i := 2; i < len(segs); i++ {
+					if i-1 >= len(f.Params) {
+						okOrder = false
+						break
+					}
+					from := false
+					for _, v := range backSlice(segs[i], SliceOpts{MaxDepth: 4, ThroughArg: func(cc *ssa.CallCommon) []ssa.Value { return callArgs(cc) }}) {
+						if v == ssa.Value(f.Params[i-1]) {
+							from = true
+						}
+					}
+					if !from {
+						okOrder = false
+					}
+				}
+				if len(segs) != len(f.Params)+1 {
+					okOrder = false
+				}
+				if !okOrder {
+					okJoin = false
+				}
+			}
 		})
 		wantSlash := strings.Contains(n, "Prefix")
 		r.Check(okJoin && endsWithSlash(f) == wantSlash, "C12-R1", "store."+n+" | shape", f.Pos(), fmt.Sprintf("path.Join(rootPath, kind, …), '/'-terminated=%v", wantSlash), "the key function does not join the root path with its kind constant, or a prefix function is not '/'-terminated (a scan of task 'a' would also match task 'ab')")
